@@ -10,18 +10,20 @@ HasFile(q, Z) == IF Dir(q) = "Compton" THEN ToString(Z) \in DOMAIN ComptonOcc
                  ELSE IF Dir(q) = "Kissel" THEN Z >= 1 /\ Z <= Len(KisselIndex)
                  ELSE Z >= 1 /\ Z <= Len(SplineIndex[Dir(q)]) /\ (q = "CS_Energy" => Z <= 92)
 Raw(q, Z) == JsonDeserialize(SplineDir \o Dir(q) \o "/Z" \o ToString(Z) \o ".json")
-Conv(seq) == [i \in 1..Len(seq) |-> FRound11(F(seq[i]))]
+\* the value of a data-file token as compiled into the library: rounded to the 11 significant digits the generator prints (R = TRUE), or exact (R = FALSE:
+\* a generator that prints more digits is just as faithful to the shipped data)
+Conv(seq, R) == [i \in 1..Len(seq) |-> IF R THEN FRound11(F(seq[i])) ELSE F(seq[i])]
 NoTab == [N |-> 0, x |-> <<>>, y |-> <<>>, y2 |-> <<>>]
-\* the table of (q, Z, shell) as compiled into the library: tokens converted and rounded to the 11 digits the generator prints
-TabOf(q, Z, shell) ==
+\* the table of (q, Z, shell) as compiled into the library
+TabOf(q, Z, shell, R) ==
   IF ~HasFile(q, Z) THEN NoTab
   ELSE LET r == Raw(q, Z) IN
        IF q = "ComptonProfile_Partial" THEN
-            (IF ToString(shell) \in DOMAIN r.py THEN [N |-> r.N, x |-> Conv(r.x), y |-> Conv(r.py[ToString(shell)]), y2 |-> Conv(r.py2[ToString(shell)])] ELSE NoTab)
+            (IF ToString(shell) \in DOMAIN r.py THEN [N |-> r.N, x |-> Conv(r.x, R), y |-> Conv(r.py[ToString(shell)], R), y2 |-> Conv(r.py2[ToString(shell)], R)] ELSE NoTab)
        ELSE IF q = "CSb_Photo_Partial" THEN
             (IF ToString(shell) \in DOMAIN r.shells /\ FGe(F(r.occ[shell + 1]), F("1e-6"))
-             THEN LET s == r.shells[ToString(shell)] IN [N |-> s.N, x |-> Conv(s.x), y |-> Conv(s.y), y2 |-> Conv(s.y2)] ELSE NoTab)
-       ELSE [N |-> r.N, x |-> Conv(r.x), y |-> Conv(r.y), y2 |-> Conv(r.y2)]
+             THEN LET s == r.shells[ToString(shell)] IN [N |-> s.N, x |-> Conv(s.x, R), y |-> Conv(s.y, R), y2 |-> Conv(s.y2, R)] ELSE NoTab)
+       ELSE [N |-> r.N, x |-> Conv(r.x, R), y |-> Conv(r.y, R), y2 |-> Conv(r.y2, R)]
 LogSpace(q) == q \in {"CS_Photo", "CS_Rayl", "CS_Compt", "CS_Energy", "ComptonProfile", "ComptonProfile_Partial", "CSb_Photo_Partial"}
 Post(q, y) == IF LogSpace(q) THEN FExp(y) ELSE y
 \* the transformed abscissa as the spec computes it; the logged one must agree within 4 ulp and is then used (it decides the side of an edge)
@@ -49,10 +51,10 @@ PointAccept(q, Z, t, edge, p) ==
   ELSE SplineAccept(t, x, ok, v, LAMBDA y : Post(q, y))
 BadOf(i, ev) ==
   IF ev.k # "spl" THEN {[prop |-> "C02", line |-> i, why |-> "unexpected event"]}
-  ELSE LET t == TabOf(ev.q, ev.Z, ev.shell) IN
+  ELSE LET t == TabOf(ev.q, ev.Z, ev.shell, TRUE) tx == TabOf(ev.q, ev.Z, ev.shell, FALSE) IN
        (IF t.N > 0 /\ ~TableOK(t) THEN {[prop |-> "C02", line |-> i, q |-> ev.q, Z |-> ev.Z, shell |-> ev.shell, why |-> "shipped table is not a valid spline table (fewer than 2 knots or decreasing abscissae)"]} ELSE {})
        \cup { [prop |-> "C02", line |-> i, q |-> ev.q, Z |-> ev.Z, shell |-> ev.shell, arg |-> FStr(ev.pts[j][1]), x |-> FStr(ev.pts[j][2]),
                got |-> [ok |-> ev.pts[j][3] = 1, v |-> FStr(ev.pts[j][4])], knots |-> t.N] :
-              j \in { j \in 1..Len(ev.pts) : ~PointAccept(ev.q, ev.Z, t, ev.edge, ev.pts[j]) } }
+              j \in { j \in 1..Len(ev.pts) : ~PointAccept(ev.q, ev.Z, t, ev.edge, ev.pts[j]) /\ ~PointAccept(ev.q, ev.Z, tx, ev.edge, ev.pts[j]) } }
 Judged == JudgedWith(BadOf)
 ============================================================================
